@@ -69,7 +69,7 @@ var harness = &simcore.Harness{
 		"hook H8 (blockchain/v0/pool_verif.go): the requester-spawning loop sleeps 2ms when idle instead of busy-spinning",
 	},
 	Assumptions: []string{
-		"fewer than or exactly 2/3 of the voting power of any height signs anything that is not on the canonical chain (forged commits for foreign blocks carry at most 2/3)",
+		"at most 2/3 of the voting power of any height signs a foreign block that would pass validation; the only thing a larger coalition (all keys) signs is a block that is invalid against the state (behaviour byz_invalid/byz_commit), which the node must still refuse",
 		"multi-eligible-peer runs depend on Go map iteration order inside BlockPool; a violation found there is reported only if an immediate in-process re-run of the same trace shows it again (otherwise counted as probe.unreproduced)",
 		"a switch to consensus with the store at (highest advertised height - 2) counts as having reached the tip: IsCaughtUp needs block H+1 to verify H, and the last verified block may still be unprocessed when the 1s ticker fires",
 	},
@@ -81,7 +81,7 @@ const chainLen = 60 // heights generated per canonical chain
 
 var lieKinds = []string{"alt", "hdr", "pad_after", "pad_nil", "pad_before", "trunc", "extend", "reorder",
 	"wrong_hash", "wrong_psh", "wrong_round", "wrong_height", "coal_other", "subset_ok", "subset_low",
-	"inconsistent", "garbage", "other_height"}
+	"inconsistent", "garbage", "other_height", "byz_invalid"}
 
 func genConfig(rng *simcore.RNG, env *simcore.Env) simcore.Op {
 	c := simcore.Op{}
@@ -455,6 +455,33 @@ func (c *canon) mutateCommit(h int64, kind string, x int) *types.Commit {
 	return types.NewCommit(height, round, bid, sigs)
 }
 
+// byzInvalid is a block for height h that does not pass validation against the state
+// (wrong app hash, a LastCommit with a slot that does not verify, or a wrong time); a
+// coalition of all validators of h signs it (see "byz_commit"). A pure function of h.
+func (c *canon) byzInvalid(h int64) *types.Block {
+	b := c.cloneBlock(h)
+	v := h % 3
+	if h == c.init {
+		v = 0
+	}
+	switch v {
+	case 0:
+		ah := append([]byte{}, b.AppHash...)
+		if len(ah) == 0 {
+			ah = []byte{1}
+		}
+		ah[0] ^= 0x80
+		b.AppHash = ah
+	case 1:
+		nc := c.mutateCommit(h-1, "pad_after", int(h))
+		b.LastCommit = nc
+		b.LastCommitHash = nc.Hash()
+	case 2:
+		b.Time = b.Time.Add(time.Second)
+	}
+	return b
+}
+
 // forge builds the block a peer sends for height h under behaviour kind. The result of
 // "garbage" is signalled by a nil LastCommit in the wire form (undecodable).
 func (c *canon) forge(h int64, kind string, x int) *types.Block {
@@ -474,6 +501,23 @@ func (c *canon) forge(h int64, kind string, x int) *types.Block {
 			h2 = c.init
 		}
 		return c.ch.Blocks[h2]
+	}
+	if kind == "byz_invalid" {
+		return c.byzInvalid(h)
+	}
+	if kind == "byz_commit" {
+		if h == c.init {
+			return c.ch.Blocks[h]
+		}
+		// the next block, carrying a commit of ALL real keys for the invalid block below it
+		x := c.byzInvalid(h - 1)
+		xid := types.BlockID{Hash: x.Hash(), PartSetHeader: x.MakePartSet(types.BlockPartSizeBytes).Header()}
+		b := c.cloneBlock(h)
+		nc := c.ch.SignCommit(c.chainID, c.vals(h-1), xid, h-1, 0, x.Time, chaingen.BlockSpec{})
+		b.LastCommit = nc
+		b.LastCommitHash = nc.Hash()
+		b.LastBlockID = xid
+		return b
 	}
 	b := c.cloneBlock(h)
 	vals := c.vals(h)
@@ -680,6 +724,9 @@ type sim struct {
 	handedOver  bool
 	opsLeft     int
 	simBudget   time.Duration
+	planned     time.Duration
+	pendSig     string
+	pendMsg     string
 	dead        bool // multi mode: an unreproduced alarm ended the run
 	rerun       bool // this sim is the in-process re-run of a multi-mode alarm
 	rerunSig    string
@@ -812,6 +859,17 @@ func (s *sim) noteSent(p int, m proto.Message) {
 
 func (s *sim) elapsed() time.Duration { return time.Since(s.t0) }
 
+// sleep advances the fake clock. Stimuli are applied 5ms off the reactor's 10ms ticker grid;
+// the sync tick that follows a stimulus must not be the instant of the 1s caught-up ticker
+// (poolRoutine's select would pick between the two in an order nobody owns), so the
+// simulator never rests 5ms before a full second.
+func (s *sim) sleep(d time.Duration) {
+	time.Sleep(d)
+	if s.elapsed()%time.Second == 995*time.Millisecond {
+		time.Sleep(10 * time.Millisecond)
+	}
+}
+
 // viol reports a violation. In multi-eligible mode (outcomes depend on Go map order inside
 // the pool) it is reported only if an immediate re-run of the same trace shows it again.
 func (s *sim) viol(sig, format string, a ...any) {
@@ -831,8 +889,19 @@ func (s *sim) viol(sig, format string, a ...any) {
 	}
 	got := s.reproduce()
 	if got == sig {
-		s.env.Fail("C13", sig, "(multi-eligible mode, reproduced in-process) "+format, a...)
-		return
+		got = s.reproduce() // twice in a row
+	}
+	if got == sig {
+		msg := "(multi-eligible mode, reproduced in-process) " + fmt.Sprintf(format, a...)
+		if s.inFinish {
+			s.env.Fail("C13", sig, "%s", msg)
+			return
+		}
+		// reported at the end of the trace: at which action an alarm appears depends on map
+		// order, the event log (the trace) must not
+		s.pendSig, s.pendMsg = sig, msg
+		s.dead = true
+		panic(deadRun{})
 	}
 	s.env.Count("probe.unreproduced")
 	if os.Getenv("SYNCSIM_DEBUG") != "" {
@@ -1013,6 +1082,9 @@ func (s *sim) absorb() {
 			s.env.Count("probe.stop.sim_leave")
 		case strings.Contains(st.reason, "validation error"):
 			s.env.Count("probe.stop.validation_error")
+			if strings.Contains(st.reason, "AppHash") || strings.Contains(st.reason, "block time") {
+				s.env.Count("probe.stop.full_validation_rejected") // commit was fine, ValidateBlock refused
+			}
 		case strings.Contains(st.reason, "did not send us anything"):
 			s.env.Count("probe.stop.peer_timeout")
 		case strings.Contains(st.reason, "invalid peer"):
@@ -1082,7 +1154,11 @@ func (s *sim) checkStore() {
 			continue
 		}
 		if got == nil || !bytes.Equal(got.Hash(), want.Hash()) {
-			s.viol("stored-wrong-block", "block stored at height %d is not the canonical block (got %v, want %X)", h, got, want.Hash())
+			var gh []byte
+			if got != nil {
+				gh = got.Hash()
+			}
+			s.viol("stored-wrong-block", "block stored at height %d is not the canonical block (got %X, want %X)", h, gh, want.Hash())
 			continue
 		}
 		meta := s.bs.LoadBlockMeta(h)
@@ -1216,7 +1292,9 @@ func (s *sim) after() {
 
 // table is the liar behaviour for the att-th answer given for height h: a pure function of
 // the run configuration, independent of which peer happens to be asked.
-func (s *sim) table(h int64, att int) (string, int) {
+func (s *sim) table(h int64, att int) (string, int) { return s.tableAt(h, att, false) }
+
+func (s *sim) tableAt(h int64, att int, second bool) (string, int) {
 	r := simcore.NewRNG(uint64(s.cfg.Int("bseed"))*1000003 + uint64(h)*7919 + uint64(att)*104729 + 17)
 	r.Uint64()
 	x := r.Intn(1 << 20)
@@ -1232,19 +1310,27 @@ func (s *sim) table(h int64, att int) (string, int) {
 			return kinds[r.Intn(len(kinds))], x
 		}
 	}
+	// the answer for the height above an invalid block signed by everybody carries that commit
+	if !second && h > s.init {
+		if k, _ := s.tableAt(h-1, att, true); k == "byz_invalid" {
+			return "byz_commit", x
+		}
+	}
 	return "honest", x
 }
 
 func (s *sim) tickOp(rng *simcore.RNG) simcore.Op {
 	ds := []int{10, 10, 10, 20, 30, 50, 100, 300, 1000, 1100}
-	if s.cfg.Bool("longticks") && s.elapsed() < s.simBudget {
+	if s.cfg.Bool("longticks") && s.planned < s.simBudget {
 		ds = append(ds, 3000, 15010, 30010)
 	}
-	return simcore.Op{"a": "tick", "ms": ds[rng.Intn(len(ds))]}
+	ms := ds[rng.Intn(len(ds))]
+	s.planned += time.Duration(ms) * time.Millisecond // a function of the trace only, not of the run's state
+	return simcore.Op{"a": "tick", "ms": ms}
 }
 
 func (s *sim) Next(rng *simcore.RNG) simcore.Op {
-	if s.dead || s.opsLeft <= 0 || (s.switched && s.mode != "multi") {
+	if s.opsLeft <= 0 || ((s.dead || s.switched) && s.mode != "multi") {
 		return nil
 	}
 	s.opsLeft--
@@ -1405,7 +1491,7 @@ func (s *sim) snapHeld() map[int64]heldSnap {
 
 func (s *sim) Apply(op simcore.Op) (ok bool) {
 	if s.dead {
-		return false
+		return s.mode == "multi"
 	}
 	defer func() {
 		if x := recover(); x != nil {
@@ -1576,7 +1662,7 @@ func (s *sim) apply(op simcore.Op) bool {
 	}
 	snap := s.snapHeld()
 	if tick > 0 {
-		time.Sleep(tick)
+		s.sleep(tick)
 	}
 	s.after()
 	pooled := func() bool { s.mu.Lock(); defer s.mu.Unlock(); return s.swRec == nil }()
@@ -1713,7 +1799,7 @@ func (s *sim) drain() {
 		if answered == 0 {
 			step = 100 * time.Millisecond
 		}
-		time.Sleep(step)
+		s.sleep(step)
 		s.after()
 	}
 	sh := s.bs.Height()
@@ -1741,6 +1827,9 @@ func (s *sim) drain() {
 }
 
 func (s *sim) Finish() {
+	if s.pendSig != "" {
+		s.env.Fail("C13", s.pendSig, "%s", s.pendMsg)
+	}
 	if s.dead {
 		return
 	}
